@@ -1,0 +1,228 @@
+use std::{
+    any::Any,
+    cmp::Ordering,
+    fmt::{self, Display, Formatter},
+};
+
+use num_traits::Float;
+
+/// A value of a primitive number type, widened without loss.
+///
+/// The validators `maximum`, `minimum` and `multiple_of` relate a value to a
+/// bound whose type may differ from the type of the value. Converting the
+/// value to the type of the bound with `as` wraps (`u64` to `i64`), truncates
+/// and saturates (`f64` to `i64`) or rounds (`i64` to `f64`), which is why
+/// they are related exactly through this type instead.
+#[derive(Clone, Copy)]
+pub(crate) enum Num {
+    Int(i128),
+    Float(f64),
+}
+
+impl Num {
+    /// Returns `None` if `T` is not a primitive number type.
+    pub(crate) fn new<T: 'static>(value: &T) -> Option<Self> {
+        let value: &dyn Any = value;
+
+        macro_rules! lossless {
+            ($($ty:ty),*) => {
+                $(
+                if let Some(n) = value.downcast_ref::<$ty>() {
+                    return Some(Num::Int(i128::from(*n)));
+                }
+                )*
+            };
+        }
+        macro_rules! fallible {
+            ($($ty:ty),*) => {
+                $(
+                if let Some(n) = value.downcast_ref::<$ty>() {
+                    return i128::try_from(*n).ok().map(Num::Int);
+                }
+                )*
+            };
+        }
+
+        lossless!(i8, i16, i32, i64, u8, u16, u32, u64);
+        fallible!(isize, usize, u128);
+        if let Some(n) = value.downcast_ref::<i128>() {
+            return Some(Num::Int(*n));
+        }
+        if let Some(n) = value.downcast_ref::<f32>() {
+            return Some(Num::Float(f64::from(*n)));
+        }
+        value.downcast_ref::<f64>().map(|n| Num::Float(*n))
+    }
+
+    /// Compares two numbers by their exact values, `None` if one is NaN.
+    pub(crate) fn partial_cmp(self, other: Num) -> Option<Ordering> {
+        match (self, other) {
+            (Num::Int(a), Num::Int(b)) => Some(a.cmp(&b)),
+            (Num::Float(a), Num::Float(b)) => a.partial_cmp(&b),
+            (Num::Int(a), Num::Float(b)) => cmp_int_float(a, b),
+            (Num::Float(a), Num::Int(b)) => cmp_int_float(b, a).map(Ordering::reverse),
+        }
+    }
+
+    pub(crate) fn is_zero(self) -> bool {
+        match self {
+            Num::Int(n) => n == 0,
+            Num::Float(n) => n == 0.0,
+        }
+    }
+
+    /// Returns `true` if this number is exactly `k * n` for an integer `k`.
+    pub(crate) fn is_multiple_of(self, n: Num) -> bool {
+        match (self.decompose(), n.decompose()) {
+            // `m * 2^e` divided by `m_n * 2^e_n`, where `m` and `m_n` are odd, is an
+            // integer if and only if `m_n` divides `m` and no power of two remains in
+            // the denominator.
+            (Some((m, e)), Some((m_n, e_n))) if m_n != 0 => m % m_n == 0 && (m == 0 || e >= e_n),
+            _ => false,
+        }
+    }
+
+    /// Returns `(m, e)` such that the absolute value of this number is
+    /// `m * 2^e` and `m` is odd or zero, `None` if it is not finite.
+    fn decompose(self) -> Option<(u128, i32)> {
+        let (m, e) = match self {
+            Num::Int(n) => (n.unsigned_abs(), 0),
+            Num::Float(n) if n.is_finite() => {
+                let (m, e, _) = n.integer_decode();
+                (u128::from(m), i32::from(e))
+            }
+            Num::Float(_) => return None,
+        };
+        if m == 0 {
+            Some((0, 0))
+        } else {
+            Some((m >> m.trailing_zeros(), e + m.trailing_zeros() as i32))
+        }
+    }
+}
+
+impl Display for Num {
+    fn fmt(&self, f: &mut Formatter<'_>) -> fmt::Result {
+        match self {
+            Num::Int(n) => n.fmt(f),
+            Num::Float(n) => n.fmt(f),
+        }
+    }
+}
+
+/// Compares an integer with a float by their exact values, `None` for NaN.
+fn cmp_int_float(a: i128, b: f64) -> Option<Ordering> {
+    // 2^127, the first float above the range of `i128`
+    const LIMIT: f64 = (1u128 << 127) as f64;
+
+    if b.is_nan() {
+        None
+    } else if b >= LIMIT {
+        Some(Ordering::Less)
+    } else if b < -LIMIT {
+        Some(Ordering::Greater)
+    } else {
+        // the integral part is in the range of `i128`, so its conversion is exact and
+        // the fractional part decides between an integer and a float next to it
+        let integral = b.trunc();
+        Some(a.cmp(&(integral as i128)).then(integral.partial_cmp(&b)?))
+    }
+}
+
+#[cfg(test)]
+mod tests {
+    use super::*;
+
+    fn cmp<A: 'static, B: 'static>(a: A, b: B) -> Option<Ordering> {
+        Num::new(&a).unwrap().partial_cmp(Num::new(&b).unwrap())
+    }
+
+    fn multiple<A: 'static, B: 'static>(a: A, b: B) -> bool {
+        Num::new(&a).unwrap().is_multiple_of(Num::new(&b).unwrap())
+    }
+
+    #[test]
+    fn test_new() {
+        assert!(Num::new(&"1").is_none());
+        assert!(Num::new(&true).is_none());
+        assert!(Num::new(&u128::MAX).is_none());
+        assert!(matches!(Num::new(&-1i8), Some(Num::Int(-1))));
+        assert!(matches!(Num::new(&u64::MAX), Some(Num::Int(n)) if n == u64::MAX as i128));
+        assert!(matches!(Num::new(&usize::MAX), Some(Num::Int(n)) if n == usize::MAX as i128));
+        assert!(matches!(Num::new(&0.5f32), Some(Num::Float(n)) if n == 0.5));
+    }
+
+    #[test]
+    fn test_partial_cmp() {
+        assert_eq!(cmp(u64::MAX, 100i64), Some(Ordering::Greater));
+        assert_eq!(cmp(1u64 << 63, i64::MAX), Some(Ordering::Greater));
+        assert_eq!(cmp(-1i8, 0u64), Some(Ordering::Less));
+        assert_eq!(cmp(100i32, 100i64), Some(Ordering::Equal));
+
+        assert_eq!(cmp(100.5f64, 100i64), Some(Ordering::Greater));
+        assert_eq!(cmp(-0.5f64, 0i64), Some(Ordering::Less));
+        assert_eq!(cmp(-100.5f64, -100i64), Some(Ordering::Less));
+        assert_eq!(cmp(-0.0f64, 0i64), Some(Ordering::Equal));
+        assert_eq!(cmp(0.5f32, 1i64), Some(Ordering::Less));
+        assert_eq!(cmp(1e300f64, i64::MAX), Some(Ordering::Greater));
+        assert_eq!(cmp(-1e300f64, i64::MIN), Some(Ordering::Less));
+        assert_eq!(cmp(f64::INFINITY, i128::MAX), Some(Ordering::Greater));
+        assert_eq!(cmp(f64::NEG_INFINITY, i128::MIN), Some(Ordering::Less));
+        assert_eq!(cmp(-(2f64.powi(127)), i128::MIN), Some(Ordering::Equal));
+        assert_eq!(cmp(2f64.powi(127), i128::MAX), Some(Ordering::Greater));
+        assert_eq!(
+            cmp(9223372036854775808f64, i64::MAX),
+            Some(Ordering::Greater)
+        );
+        assert_eq!(cmp(f64::NAN, 0i64), None);
+        assert_eq!(cmp(0i64, f64::NAN), None);
+
+        let two_53 = 9007199254740992i64;
+        assert_eq!(cmp(two_53 + 1, two_53 as f64), Some(Ordering::Greater));
+        assert_eq!(cmp(two_53, two_53 as f64), Some(Ordering::Equal));
+        assert_eq!(cmp(-two_53 - 1, -two_53 as f64), Some(Ordering::Less));
+        assert_eq!(cmp(i64::MAX, 9223372036854775808f64), Some(Ordering::Less));
+        assert_eq!(cmp(u64::MAX, 18446744073709551616f64), Some(Ordering::Less));
+        assert_eq!(cmp(10u64, 10.5f64), Some(Ordering::Less));
+        assert_eq!(cmp(11u64, 10.5f64), Some(Ordering::Greater));
+        assert_eq!(cmp(-10i64, -10.5f64), Some(Ordering::Greater));
+        assert_eq!(cmp(1.5f64, 1.5f32), Some(Ordering::Equal));
+    }
+
+    #[test]
+    fn test_is_multiple_of() {
+        assert!(multiple(6i32, 3i64));
+        assert!(multiple(-6i32, 3i64));
+        assert!(!multiple(5i32, 3i64));
+        assert!(multiple(0i32, 3i64));
+        assert!(!multiple(3i32, 0i64));
+        assert!(multiple(18446744073709551610u64, 10i64));
+        assert!(!multiple(18446744073709551611u64, 10i64));
+        assert!(multiple(i64::MIN, -1i64));
+
+        assert!(multiple(4.0f64, 2i64));
+        assert!(!multiple(4.5f64, 2i64));
+        assert!(!multiple(0.5f64, 1i64));
+        assert!(multiple(1e300f64, 2i64));
+        assert!(!multiple(1e300f64, 7i64));
+        assert!(multiple(-9.0f64, 3i64));
+        assert!(!multiple(f64::INFINITY, 2i64));
+        assert!(!multiple(f64::NAN, 2i64));
+
+        assert!(multiple(4.5f64, 1.5f64));
+        assert!(multiple(1.5f64, 0.5f64));
+        assert!(!multiple(1.5f64, 1.0f64));
+        assert!(!multiple(1.0f64, 0.0f64));
+        assert!(multiple(5e-324f64, 5e-324f64));
+        assert!(multiple(1.0f64, 5e-324f64));
+
+        assert!(multiple(5i64, 2.5f64));
+        assert!(!multiple(4i64, 2.5f64));
+        assert!(multiple(3i64, 0.5f64));
+        assert!(multiple(9007199254740995i64, 2.5f64));
+        assert!(!multiple(9007199254740996i64, 2.5f64));
+        assert!(multiple(9007199254740993i64, 1.0f64));
+        assert!(!multiple(1i64, 1e300f64));
+        assert!(!multiple(1i64, f64::INFINITY));
+    }
+}
